@@ -166,7 +166,16 @@ pub mod _verif {
     /// Returns the scanner's stop position, or `None` if that backend is not part of this
     /// build or not supported by this CPU.
     pub fn scan(backend: u8, class: u8, buf: &[u8]) -> Option<usize> {
+        scan_from(backend, class, buf, 0)
+    }
+
+    /// As `scan`, but the scanner is entered with `start` bytes already consumed and NOT committed
+    /// (the way the parser re-enters the value scanner after an obsolete line fold).
+    pub fn scan_from(backend: u8, class: u8, buf: &[u8], start: usize) -> Option<usize> {
+        assert!(start <= buf.len());
         let mut bytes = Bytes::new(buf);
+        // SAFETY: start <= buf.len()
+        unsafe { bytes.advance(start) };
         let ran = match (backend, class) {
             (0, 0) => { super::match_uri_vectored(&mut bytes); true }
             (0, 1) => { super::match_header_value_vectored(&mut bytes); true }
